@@ -163,7 +163,7 @@ class Probe:
                         if len(main) != 1:
                             self.problems.append(('a step evaluated the model %d times at the proposal' % len(main), dict(op=op)))
                             continue
-                        args = {k: float(v) for k, v in main[0][1].items()}
+                        args = {k: float(v) for k, v in main[0][1].items() if k != '_state'}
                         prop = {k: float(v) for k, v in r['proposed'].items() if k != '_state'}
                         if struct_diff(args, prop):
                             self.problems.append(('step evaluated the model away from the proposed point', dict(args=args, proposed=prop)))
@@ -194,8 +194,7 @@ class Probe:
                                               dict(chain=ci, level=t, index=i, pos=kw, recorded=(float(S[i]['logl']), float(S[i]['logp'])),
                                                    model=(float(logl), float(logp)))))
                     if lv.hasblobs:
-                        xs = [float(kw[p]) for p in cfg.params]
-                        wantb = {'b0': xs[0] * 2.0, 'b1': xs[-1] + 1.0}
+                        wantb = inner.expected_blob(kw)
                         if struct_diff({k: float(B[i][k]) for k in B.dtype.names}, wantb):
                             self.problems.append(('recorded blob is not the model blob at the recorded position',
                                                   dict(chain=ci, level=t, index=i)))
@@ -380,7 +379,7 @@ def run_property(pid, seed, tier):
     k = 0
     while k < ncases:
         cfg = machine.Config(rng, pt=True if pid == 'C09' else None, thorough=thorough)
-        if pid == 'C18' and rng.random() < 0.3:
+        if pid == 'C18' and cfg.prop_kind != 'td' and rng.random() < 0.3:
             cfg.prop_kind = 'cw'
         sched = machine.gen_ops(rng, thorough, allow_setstate=(pid != 'C06'))
         probe = Probe(pid, cfg, out)
